@@ -182,6 +182,9 @@ class _FilesystemDataSource(DataSource):
         # This data source does not perform reference counting, but an object that is only
         # present in another store has to be brought over: whatever refers to target_key is
         # going to look for it here.
+        if src_key is None or target_key is None:
+            # Nothing is stored for a null value
+            return
         if src_data_source is self or self.exists_versioned(target_key):
             return
         target_path = self._get_path_versioned(target_key)
@@ -201,6 +204,10 @@ class _FilesystemDataSource(DataSource):
         finally:
             if scratch_path.exists():
                 os.remove(str(scratch_path))
+        if not self.exists_nonversioned(DataSourceKey(target_key.key)):
+            # The object is now stored here as well: make it the one its key designates, so
+            # that results with the same content are stored as this object, not beside it
+            self._write_non_versioned_link(target_key)
 
     def output_metadata(
         self, content_key: VersionedDataSourceKey, metadata_key: str, value: bytes
